@@ -291,9 +291,11 @@ Proof.
     + rewrite Ew. destruct (Nat.eqb_spec (wgen w) (gen b)) as [Hn|_]; [contradiction|reflexivity].
 Qed.
 
-Lemma step_inv b t o : Inv b t -> op_wb t o = true -> Inv (step b o) (tstep b t o).
+Definition no_ser (o : op) : bool := match o with OSer _ => false | _ => true end.
+
+Lemma step_inv_base b t o : no_ser o = true -> Inv b t -> op_wb t o = true -> Inv (step b o) (tstep b t o).
 Proof.
-  intros I Hwb. destruct o as [n fill|n fill| |x|k i v]; cbn [step tstep].
+  intros Hns I Hwb. destruct o as [n fill|n fill| |x|k i v|ls]; cbn [step tstep]; [| | | | |discriminate].
   - rewrite cwrite_block_eq. apply write_all_inv; [apply prepend_inv; exact I|reflexivity|].
     unfold win_live, prepend; cbn. apply Nat.eqb_refl.
   - rewrite cwrite_block_eq. apply write_all_inv; [apply append_inv; exact I|reflexivity|].
@@ -303,14 +305,15 @@ Proof.
   - apply write_inv; assumption.
 Qed.
 
-Lemma run2_inv ops : forall b t b' t',
+Lemma run2_inv_base ops : forall b t b' t', forallb no_ser ops = true ->
   Inv b t -> run2 b t ops = (b', t', true) -> Inv b' t'.
 Proof.
-  induction ops as [|o r IH]; intros b t b' t' I H; cbn [run2] in H.
+  induction ops as [|o r IH]; intros b t b' t' Hns I H; cbn [run2] in H.
   - inversion H; subst. exact I.
   - destruct (run2 (step b o) (tstep b t o) r) as [[b1 t1] ok1] eqn:E.
+    cbn [forallb] in Hns. apply andb_prop in Hns. destruct Hns as [Hn1 Hn2].
     inversion H as [[Hb Ht Hok]]. subst b1 t1. apply andb_prop in Hok. destruct Hok as [Hwb Hok1].
-    subst ok1. eapply IH; [|exact E]. apply step_inv; assumption.
+    subst ok1. eapply IH; [exact Hn2| |exact E]. apply step_inv_base; assumption.
 Qed.
 
 Lemma agree_of_inv b t : Inv b t -> agree (bytes_of b) (cells t) = true.
@@ -326,24 +329,6 @@ Proof.
   - destruct c as [v|]; [|reflexivity]. specialize (Hcc 0 v eq_refl). cbn in Hcc.
     inversion Hcc. apply Z.eqb_refl.
   - apply IH; [cbn in Hlen; lia|]. intros i v H. exact (Hcc (S i) v H).
-Qed.
-
-(* main refinement statement *)
-Lemma refines p a ops b t :
-  run2 (new_buf p a) tape0 ops = (b, t, true) ->
-  panicked b = false /\
-  length (bytes_of b) = length (cells t) /\
-  agree (bytes_of b) (cells t) = true /\
-  layers b = tlayers t /\
-  (forall k w q l, nth_error (wins b) k = Some w -> nth_error (twins t) k = Some (Some (q, l)) ->
-     wgen w = gen b ->
-     wlen w = l /\ q + l <= length (cells t) /\ woff w = start b + q).
-Proof.
-  intros H. pose proof (run2_inv ops _ _ _ _ (inv_init p a) H) as I.
-  split; [apply I|]. split.
-  { rewrite bytes_of_length; [symmetry; apply I|apply I]. }
-  split; [apply agree_of_inv; exact I|]. split; [apply I|].
-  intros k w q l H1 H2 H3. destruct (inv_wins _ _ I k w q l H1 H2 H3) as [A [B C]]. auto.
 Qed.
 
 (* run2 projects to the plain concrete run *)
@@ -436,6 +421,9 @@ Proof.
   rewrite IH. cbn [step]. rewrite cwrite_block_eq. reflexivity.
 Qed.
 
+Lemma layer_ops_no_ser ls : forallb no_ser (flat_map layer_ops ls) = true.
+Proof. induction ls as [|l ls IH]; cbn; [reflexivity|exact IH]. Qed.
+
 (* tape-level result of serializing a list of layers (in the order they are run) *)
 Lemma tape_layers ls : forall b t,
   exists b' t', run2 b t (flat_map layer_ops ls) = (b', t', true) /\
@@ -471,7 +459,7 @@ Proof.
   intros I r. unfold r, serialize_layers. rewrite fold_ser_layer.
   pose proof (clear_inv b t I) as Ic.
   destruct (tape_layers (rev ls) (clear b) (tclear t)) as [b' [t' [Hr [Hc Hl]]]].
-  pose proof (run2_inv _ _ _ _ _ Ic Hr) as I'.
+  pose proof (run2_inv_base _ _ _ _ _ (layer_ops_no_ser (rev ls)) Ic Hr) as I'.
   pose proof (run2_fst (flat_map layer_ops (rev ls)) (clear b) (tclear t)) as Hf.
   rewrite Hr in Hf. cbn [fst] in Hf. rewrite <- Hf.
   split; [apply I'|]. split.
@@ -479,3 +467,65 @@ Proof.
     rewrite app_nil_r in Hc. rewrite <- Hc. apply agree_of_inv. exact I'.
   - rewrite (inv_layers _ _ I'). rewrite Hl. reflexivity.
 Qed.
+
+(* ---- SerializeLayers as one operation ---- *)
+Lemma ser_inv b t ls : Inv b t ->
+  Inv (forget_wins (serialize_layers b ls))
+      {| cells := map Some (concat (map snd ls)); tlayers := map fst (rev ls); twins := [] |}.
+Proof.
+  intros I. unfold serialize_layers. rewrite fold_ser_layer.
+  pose proof (clear_inv b t I) as Ic.
+  destruct (tape_layers (rev ls) (clear b) (tclear t)) as [b' [t' [Hr [Hc Hl]]]].
+  pose proof (run2_inv_base _ _ _ _ _ (layer_ops_no_ser (rev ls)) Ic Hr) as I'.
+  pose proof (run2_fst (flat_map layer_ops (rev ls)) (clear b) (tclear t)) as Hf.
+  rewrite Hr in Hf. cbn [fst] in Hf. rewrite <- Hf.
+  rewrite rev_involutive in Hc. cbn [tclear cells] in Hc. rewrite app_nil_r in Hc.
+  cbn [tclear tlayers app] in Hl.
+  destruct I' as [Hp Hs Hl' Hpr Hcl Hcc Hly Hwl Hwg Hw].
+  constructor; cbn [forget_wins panicked start len arr prepended appended layers gen wins cap cells tlayers twins].
+  - exact Hp.
+  - exact Hs.
+  - unfold cap in *; cbn [arr]. exact Hl'.
+  - unfold cap in *; cbn [arr]. exact Hpr.
+  - rewrite <- Hc. exact Hcl.
+  - intros i v H. apply Hcc. rewrite Hc. exact H.
+  - rewrite Hly, Hl. reflexivity.
+  - reflexivity.
+  - intros [|k] w H; discriminate.
+  - intros [|k] w p l H; discriminate.
+Qed.
+
+Lemma step_inv b t o : Inv b t -> op_wb t o = true -> Inv (step b o) (tstep b t o).
+Proof.
+  intros I Hwb. destruct (no_ser o) eqn:E; [apply step_inv_base; assumption|].
+  destruct o; try discriminate. cbn [step tstep]. apply (ser_inv b t). exact I.
+Qed.
+
+Lemma run2_inv ops : forall b t b' t',
+  Inv b t -> run2 b t ops = (b', t', true) -> Inv b' t'.
+Proof.
+  induction ops as [|o r IH]; intros b t b' t' I H; cbn [run2] in H.
+  - inversion H; subst. exact I.
+  - destruct (run2 (step b o) (tstep b t o) r) as [[b1 t1] ok1] eqn:E.
+    inversion H as [[Hb Ht Hok]]. subst b1 t1. apply andb_prop in Hok. destruct Hok as [Hwb Hok1].
+    subst ok1. eapply IH; [|exact E]. apply step_inv; assumption.
+Qed.
+
+(* main refinement statement *)
+Lemma refines p a ops b t :
+  run2 (new_buf p a) tape0 ops = (b, t, true) ->
+  panicked b = false /\
+  length (bytes_of b) = length (cells t) /\
+  agree (bytes_of b) (cells t) = true /\
+  layers b = tlayers t /\
+  (forall k w q l, nth_error (wins b) k = Some w -> nth_error (twins t) k = Some (Some (q, l)) ->
+     wgen w = gen b ->
+     wlen w = l /\ q + l <= length (cells t) /\ woff w = start b + q).
+Proof.
+  intros H. pose proof (run2_inv ops _ _ _ _ (inv_init p a) H) as I.
+  split; [apply I|]. split.
+  { rewrite bytes_of_length; [symmetry; apply I|apply I]. }
+  split; [apply agree_of_inv; exact I|]. split; [apply I|].
+  intros k w q l H1 H2 H3. destruct (inv_wins _ _ I k w q l H1 H2 H3) as [A [B C]]. auto.
+Qed.
+
